@@ -222,7 +222,7 @@ class World:
 
 
 class Obj:
-    __slots__ = ("cls", "real", "X0", "dim", "alive", "protected_at", "frozen", "nm", "name")
+    __slots__ = ("cls", "real", "X0", "dim", "alive", "protected_at", "frozen", "nm", "name", "retired_protected")
 
 
 class Runner:
@@ -297,6 +297,13 @@ class Runner:
         stack = list(self.m.basis_stack)
         for n, o in enumerate(self.pool):
             if not o.alive:
+                if getattr(o, "retired_protected", False):
+                    # an object that crossed an exit while protected keeps whatever data it had (by design), but its
+                    # basis label belongs to the bookkeeping: it must name a basis that exists
+                    bid = o.real.get_current_basis()
+                    check(bid in stack, "object-basis-on-stack",
+                          lambda: "%s: object #%d (%s), protected when its context was left, carries basis id %r, stack is %r"
+                          % (what, n, o.cls, bid, stack))
                 continue
             bid = o.real.get_current_basis()
             check(bid in stack, "object-basis-on-stack",
@@ -717,6 +724,7 @@ class Runner:
                     # the object's claimed level was frozen at protection time
                     if o.frozen is not None and o.frozen[0] >= d:
                         o.alive = False
+                        o.retired_protected = True
                         self.ctx.probe("protected_crossing_exit")
         self.levels.pop()
         self.exits_done += 1
